@@ -341,6 +341,10 @@ type SkipTenantCase struct {
 	// Fail[i] > 0: before value i, a pooled decoder of the same kind is given a value of that string length
 	// whose last bytes are missing (its Next fails after the buffer has grown), and is released again.
 	Fail []int `json:"fail,omitempty"`
+	// FailMode 0: every such failure is a truncation (an I/O failure). 1: at every second failing position the
+	// value is instead rejected by the grammar, behind the long string (a later field declares a negative size).
+	// 2: a truncation followed by such a rejection, at every failing position.
+	FailMode int `json:"fail_mode,omitempty"`
 }
 
 func checkSkipTenant(c SkipTenantCase, cv *cov) (v *evid.Violation) {
@@ -376,9 +380,9 @@ func checkSkipTenant(c SkipTenantCase, cv *cov) (v *evid.Violation) {
 	tn.light = len(c.Lens) > 200
 	grew := false
 	sawFail := false
-	// failedDecode lets a pooled decoder fail on a truncated value of string length l (an I/O failure) and - in
-	// cases with an even co-tenant parameter - afterwards lets a pooled decoder reject a value for a reason that
-	// lies in the bytes, behind a long string that has already been buffered.
+	// failedDecode lets a pooled decoder fail on a truncated value of string length l (an I/O failure) and/or
+	// reject a value for a reason that lies in the bytes, behind a long string that has already been buffered
+	// (FailMode).
 	failedDecode := func(i int) *evid.Violation {
 		if i >= len(c.Fail) || c.Fail[i] <= 0 {
 			return nil
@@ -386,15 +390,21 @@ func checkSkipTenant(c SkipTenantCase, cv *cov) (v *evid.Violation) {
 		l := c.Fail[i]
 		val := ref.Value{T: ref.STRUCT, Fields: []ref.Field{{ID: 1, V: ref.Value{T: ref.STRING, Str: patternBytes(0x77, l)}}}}
 		full, _ := ref.Encode(&val)
-		variants := [][]byte{full[:len(full)-3]} // the source ends early
-		if c.Tenant%2 == 0 {
-			// a second string field declares a negative size
-			variants = append(variants, append(append([]byte(nil), full[:len(full)-1]...), 0x0b, 0, 2, 0xff, 0xff, 0xff, 0xff, 0))
+		cut := full[:len(full)-3]                                                                        // the source ends early
+		neg := append(append([]byte(nil), full[:len(full)-1]...), 0x0b, 0, 2, 0xff, 0xff, 0xff, 0xff, 0) // a second string field declares a negative size
+		variants, names := [][]byte{cut}, []string{"a value whose last 3 bytes are missing"}
+		switch c.FailMode {
+		case 1:
+			if (i/2)%2 == 1 {
+				variants, names = [][]byte{neg}, []string{"a value whose second field declares a negative size"}
+			}
+		case 2:
+			variants, names = append(variants, neg), append(names, "a value whose second field declares a negative size")
 		}
 		sawFail = true
 		for vi, e := range variants {
 			fsr := faultio.NewScriptReader(e, faultio.Plan{Chunks: []int{0}, ErrAt: -1, WithData: i%2 == 0})
-			what := []string{"a value whose last 3 bytes are missing", "a value whose second field declares a negative size"}[vi]
+			what := names[vi]
 			if c.Reader {
 				x := thrift.NewReaderSkipDecoder(fsr)
 				_, err := x.Next(ref.STRUCT)
@@ -616,6 +626,7 @@ func genSkipTenantCase(t *rapid.T) SkipTenantCase {
 		c.Release = append(c.Release, rapid.IntRange(0, 3).Draw(t, "rel") == 0)
 		c.Fail = append(c.Fail, rapid.SampledFrom([]int{0, 0, 0, 0, 10, 5000, 70000, 200000}).Draw(t, "fail"))
 	}
+	c.FailMode = rapid.IntRange(0, 2).Draw(t, "failMode")
 	c.Plan = faultio.Plan{Chunks: []int{rapid.SampledFrom([]int{0, 1000, 4096}).Draw(t, "chunk")}, ErrAt: -1, WithData: rapid.Bool().Draw(t, "wd")}
 	return c
 }
@@ -642,7 +653,7 @@ func TestC09_SkipDecoders(t *testing.T) {
 // TestC09_Big: the same three co-tenant checks with requests, payloads and values of 64 KiB .. 16 MiB, so
 // that buffers of the large size classes are handed out, retained, outgrown and recycled.
 func TestC09_Big(t *testing.T) {
-	rec := evid.New("C09", "c09_big", "enumeration: for n in {2^k+1 : k = 16..24}: reader histories {Next 100; Next n; Peek 9; Release; Next 100}, {Next n; Next n/2; Release; Next 7} and {Peek n; Peek 2n+3; Peek 4n; Next 10; Release; Peek 50; Peek n/2; Peek 3n+1; Next 3n; Release} (io.Reader-backed) and a bytes reader over an n-byte slice of power-of-two capacity with a failing over-read; writer histories {Malloc 100; WriteBinary n-1 (payload of exactly 2^k bytes in a power-of-two capacity buffer); Malloc n/2; Flush; Malloc 100; Flush} and {WriteBinary 2^k first; Malloc 100; Malloc 5000; Flush; WriteBinary 2^k; WriteBinary 10; Flush}; skip-decoder cases {values n, 10, n/2; with and without pool cycling; with a failed decode of a truncated n-byte value (and, for every third n, also of an n-byte value whose next field declares a negative size) on a pooled decoder in between} for both stream skip decoders; co-tenant covers size classes up to 4n; distinct by construction")
+	rec := evid.New("C09", "c09_big", "enumeration: for n in {2^k+1 : k = 16..24}: reader histories {Next 100; Next n; Peek 9; Release; Next 100}, {Next n; Next n/2; Release; Next 7} and {Peek n; Peek 2n+3; Peek 4n; Next 10; Release; Peek 50; Peek n/2; Peek 3n+1; Next 3n; Release} (io.Reader-backed) and a bytes reader over an n-byte slice of power-of-two capacity with a failing over-read; writer histories {Malloc 100; WriteBinary n-1 (payload of exactly 2^k bytes in a power-of-two capacity buffer); Malloc n/2; Flush; Malloc 100; Flush} and {WriteBinary 2^k first; Malloc 100; Malloc 5000; Flush; WriteBinary 2^k; WriteBinary 10; Flush}; skip-decoder cases {values n, 10, n/2; with and without pool cycling; with a failed decode of a truncated n-byte value on a pooled decoder in between, in three failure modes: truncation only / a grammar rejection behind the long string at every second failing position / both at every position} for both stream skip decoders; co-tenant covers size classes up to 4n; distinct by construction")
 	defer rec.Flush()
 	bt := evid.NewBatch()
 	shard, nshards := evid.Shard()
@@ -693,11 +704,15 @@ func TestC09_Big(t *testing.T) {
 				bt.Nontrivial++
 			}
 		}
-		for variant := 0; variant < 8; variant++ {
-			sc := SkipTenantCase{Lens: []int{n, 10, n / 2, 100}, Reader: variant&1 == 1, Cycle: variant&2 != 0, Tenant: 1 + variant%3, Release: []bool{false, true, false, false},
-				Plan: faultio.Plan{Chunks: []int{1 << 18}, ErrAt: -1, WithData: variant&1 == 0}}
-			if variant&4 != 0 {
+		for variant := 0; variant < 16; variant++ {
+			// variants 0..3 without failures; 4..7 with truncations in between (FailMode 0); 8..11 and 12..15 repeat
+			// 4..7 with FailMode 1 and 2
+			base := variant & 3
+			sc := SkipTenantCase{Lens: []int{n, 10, n / 2, 100}, Reader: base&1 == 1, Cycle: base&2 != 0, Tenant: 1 + (base|4*boolInt(variant >= 4))%3, Release: []bool{false, true, false, false},
+				Plan: faultio.Plan{Chunks: []int{1 << 18}, ErrAt: -1, WithData: base&1 == 0}}
+			if variant >= 4 {
 				sc.Fail = []int{0, n, 0, n / 3}
+				sc.FailMode = variant/4 - 1
 			}
 			var cv cov
 			if v := checkSkipTenant(sc, &cv); v != nil {
@@ -1069,4 +1084,11 @@ func init() {
 		}
 		return checkSkipTenant(sc, cv)
 	})
+}
+
+func boolInt(b bool) int {
+	if b {
+		return 1
+	}
+	return 0
 }
